@@ -2643,7 +2643,7 @@ func onlyLiteralsHandedIn(p *Prog, fn *Fn, par types.Object) bool {
 // controlled by a comparison with the predecessor list can put a head into both lists.
 func referencesSkipThePredecessors(c *Ctx, r *Report, rule string) {
 	p := c.P
-	app := p.FuncI("", "IPFSLog", "Append")
+	app := orig(p.FuncI("", "IPFSLog", "Append")) // the function as declared: a helper is followed explicitly below
 	// the locals handed to the entry literal as Next and Refs
 	var refsObj, nextObj types.Object
 	walkNoLit(app.Body, func(n ast.Node) bool {
@@ -2667,6 +2667,50 @@ func referencesSkipThePredecessors(c *Ctx, r *Report, rule string) {
 		r.Undecided(rule, r.Key(rule, app, "refs-filter", ""), app.Body.Pos(), "Append does not hand locals to the Next and Refs of the new entry")
 		return
 	}
+	// both lists computed by one helper (`next, refs := nextAndRefs(...)`): the rule moves into the helper
+	walkNoLit(app.Body, func(n ast.Node) bool {
+		as, ok := n.(*ast.AssignStmt)
+		if !ok || len(as.Rhs) != 1 || len(as.Lhs) < 2 {
+			return true
+		}
+		call, ok := ast.Unparen(as.Rhs[0]).(*ast.CallExpr)
+		if !ok {
+			return true
+		}
+		ri, ni := -1, -1
+		for i, l := range as.Lhs {
+			if id, ok := ast.Unparen(l).(*ast.Ident); ok {
+				switch p.ObjOf(app, id) {
+				case refsObj:
+					ri = i
+				case nextObj:
+					ni = i
+				}
+			}
+		}
+		if ri < 0 || ni < 0 {
+			return true
+		}
+		cf := p.Callee(app, call)
+		if cf == nil || !p.firstParty(cf.Pkg()) {
+			return true
+		}
+		h := p.ByObj[cf]
+		if h == nil || h.Body == nil {
+			return true
+		}
+		walkNoLit(h.Body, func(m ast.Node) bool {
+			if ret, ok := m.(*ast.ReturnStmt); ok && len(ret.Results) == len(as.Lhs) {
+				rid, ok1 := ast.Unparen(ret.Results[ri]).(*ast.Ident)
+				nid, ok2 := ast.Unparen(ret.Results[ni]).(*ast.Ident)
+				if ok1 && ok2 {
+					app, refsObj, nextObj = h, p.ObjOf(h, rid), p.ObjOf(h, nid)
+				}
+			}
+			return true
+		})
+		return true
+	})
 	mentions := func(n ast.Node, o types.Object) bool {
 		found := false
 		ast.Inspect(n, func(m ast.Node) bool {
@@ -2807,7 +2851,7 @@ func lengthTestsAreSignTests(c *Ctx, r *Report, rule string) {
 		})
 	}
 	r.Hold(rule, r.Key(rule, nil, "sign-tests", ""), token.NoPos, true, fmt.Sprintf("%d comparisons of a fetch length with 0 or -1 are order comparisons (sign tests)", nSign))
-	r.Floor(rule, "sign tests of a fetch length", nSign, 4)
+	r.Floor(rule, "sign tests of a fetch length", nSign, 2)
 }
 
 // latestClockOnlyOrdersTheQueue: the latest clock time the fetcher has seen is a priority for its queue, not a
